@@ -1530,7 +1530,32 @@ class _Ops:
         velocity = cname(t) in VELOCITY
         expect = ()
         n_before = int(t.params.shape[0]) if k in ("P", "B") else 0
-        st, r = self.guarded(lambda: t.grid_(new), expect=expect)
+        kint = op.get("interrupt")
+        if kint is not None:
+            # failing allocation (exception at the k-th torch call) inside the mutation: afterwards the transform must
+            # hold either its old or its new state, never a mixture (grid of one, parameters of the other)
+            with Interrupt(int(kint)) as imode:
+                st, r = self.guarded(lambda: t.grid_(new), expect=expect)
+            if imode.fired:
+                self.c["faults"]["alloc_fail_in_mutation"] += 1
+        else:
+            st, r = self.guarded(lambda: t.grid_(new), expect=expect)
+        if st == "faulted":
+            bad = self.classify(st, r, x, "grid_:" + mode)
+            x.affine_params = False
+            self.mark_pairs(x, True, "grid_")
+            self.note_change(x, "grid_:" + mode + "(failed)")
+            got = gen.grid_key(t.grid())
+            viol = []
+            if got not in (gen.grid_key(old), gen.grid_key(new)):
+                viol.append(self.viol("C09", "torn-state", x, "grid_:" + mode, {"what": "grid is neither the old nor the new one"}))
+            elif kind_of(t) in ("P", "B") and tuple(t.params.shape[1:]) != tuple(t.data_shape):
+                viol.append(self.viol("C09", "torn-state", x, "grid_:" + mode, {"what": "parameters do not fit the grid the transform reports",
+                                                                                  "params": list(t.params.shape[1:]), "data_shape": list(t.data_shape),
+                                                                                  "grid": "new" if got == gen.grid_key(new) else "old"}))
+            self.c["checks"]["state_consistent_after_failed_mutation"] += 1
+            bad.violations.extend(viol)
+            return bad
         bad = self.classify(st, r, x, "grid_:" + mode)
         if bad:
             return bad
@@ -1619,8 +1644,19 @@ class _Ops:
         t = x.obj
         # what the receiver holds before a non-mutating accessor: it must hold exactly that afterwards
         held_before = self._holds(t)
+        kint = op.get("interrupt")
+
+        def G(fn):
+            if kint is None:
+                return self.guarded(fn)
+            with Interrupt(int(kint)) as im:
+                res = self.guarded(fn)
+            if im.fired:
+                self.c["faults"]["interrupt"] += 1
+            return res
+
         if how == "copy":
-            st, r = self.guarded(lambda: _copy.copy(t))
+            st, r = G(lambda: _copy.copy(t))
             buf = x.buf
         elif how == "grid":
             if x.is_comp or family(t) == "spline":
@@ -1630,31 +1666,37 @@ class _Ops:
                 g = Grid(size=t.grid().size(), spacing=g.spacing(), center=g.center(), direction=g.direction(), align_corners=g.align_corners())
             old_grid = t.grid()
             gprobe = self._grid_probe(x, old_grid, g, "new", {"pseed": int(op["out"]) + 17})
-            st, r = self.guarded(lambda: t.grid(g))
+            st, r = G(lambda: t.grid(g))
             buf = "cleared"
         elif how == "data":
             if x.is_comp:
                 return StepResult("skipped")
             val = self.param_tensor(t, dict(op["val"], kind=kind_of(t)), self.batch_of(t))
-            st, r = self.guarded(lambda: t.data(val))
+            st, r = G(lambda: t.data(val))
             buf = "cleared"
         elif how == "condition":
             c = self.cond_tensor(op["cseed"])
-            st, r = self.guarded(lambda: t.condition(c))
+            st, r = G(lambda: t.condition(c))
             buf = "cleared"
         elif how == "unlink":
             if x.is_comp:
                 return StepResult("skipped")
-            st, r = self.guarded(lambda: t.unlink())
+            st, r = G(lambda: t.unlink())
             buf = "unknown"
         elif how == "link":
             o = self.get(op["other"])
             if x.is_comp or o is None or o.is_comp or type(o.obj) is not type(t) or o.obj is t:
                 return StepResult("skipped")
-            st, r = self.guarded(lambda: t.link(o.obj))
+            st, r = G(lambda: t.link(o.obj))
             buf = "unknown"
         else:
             raise HarnessError(how)
+        if st == "faulted":
+            self.c["checks"]["accessor_leaves_receiver"] += 1
+            if self._holds(t) != held_before:
+                return StepResult("faulted", "acc-faulted", [self.viol("C09", "accessor-changed-receiver", x, "acc:" + how + "@fault", {})])
+            self.after_fault = True
+            return StepResult("faulted", "acc-faulted")
         bad = self.classify(st, r, x, "acc:" + how)
         if bad:
             return bad
@@ -2512,7 +2554,18 @@ class _Gen:
         x = self.pick(rng, lambda y: not self.has_none(y))
         if x is None:
             return None
-        if rng.chance(0.6):
+        what = rng.weighted([("call", 4), ("disp", 3), ("grid_", 4), ("copy", 2)])
+        if what == "grid_":
+            op = self.gen_grid_(rng)
+            if op is not None:
+                op["interrupt"] = rng.choice([rng.randint(1, 60), rng.randint(60, 260)])
+                return op
+        if what == "copy":
+            op = self.gen_copy(rng)
+            if op is not None:
+                op["interrupt"] = rng.randint(1, 40)
+                return op
+        if what == "call" or what == "grid_":
             return {"op": "call", "h": x.hid, "pseed": rng.subseed(), "interrupt": rng.randint(1, 60)}
         return {"op": "disp", "h": x.hid, "which": "disp", "interrupt": rng.randint(1, 60)}
 
